@@ -511,7 +511,7 @@ func checkC17(r *kit.Run) {
 	}
 	c17ModFiles(r)
 	nm, nv := kit.Pick(r, 3, 4), kit.Pick(r, 2, 3)
-	cfg := fmt.Sprintf("INIT Init\nNEXT Next\nCONSTANTS NM = %d NV = %d Sample = %d\nINVARIANTS AbstractIsTidy AbstractIdempotent\n", nm, nv, kit.Pick(r, 30, 300))
+	cfg := fmt.Sprintf("INIT Init\nNEXT Next\nCONSTANTS NM = %d NV = %d Sample = %d\nINVARIANTS AbstractIsTidy AbstractIdempotent\n", nm, nv, kit.Pick(r, 14, 120))
 	res, err := kit.RunTLC(kit.TLCOpts{Module: "Tidy", CfgText: cfg, Dump: true, Seed: r.Seed + 31, Timeout: 40 * time.Minute, Heap: "16g"})
 	defer res.Cleanup()
 	if err != nil || res.TimedOut || !res.OK() {
